@@ -138,6 +138,17 @@ def run(tier, seed, replay=None):
         (sc / "ign").mkdir()
         irecs, iruns = ignoreuni.observe(sc / "ign")
         ifails, istates = ignoreuni.evaluate(irecs, sc)
+        # the command-line front end (Cli.tla): every flag combination ends with status 0 or 1
+        from . import cliuni
+        (sc / "cli").mkdir()
+        crecs = cliuni.observe(sc / "cli", tier)
+        cfails, cstates = cliuni.evaluate(crecs, sc)
+        for idx, f in cfails:
+            if "ExitIs01" in f["fails"]:
+                r = crecs[idx]
+                v.violation(f"cli-exit:{' '.join(r['_argv'])}",
+                            f"`rustfmt {' '.join(r['_argv'])}` ends with status {r['o']['exit']}",
+                            {"argv": r["_argv"], "observed": r["o"], "stderr": r["_stderr"]})
         seen_runs = set()
         for idx, f in ifails:
             r = irecs[idx]
@@ -208,8 +219,8 @@ def run(tier, seed, replay=None):
                    "rustfmt rejects or reports a parse error for",
            "outcomes": oc_count, "mutants": len([j for j in jobs if "mutate" in j]),
            "binary_traces": len(sample), "traces_validated_against_impl": t_ok,
-           "ignore_runs": iruns,
-           "obs_states": ostates + tstates + istates, "samples": v.samples}
+           "ignore_runs": iruns, "cli_combinations": len(crecs),
+           "obs_states": ostates + tstates + istates + cstates, "samples": v.samples}
     cov.update(suite_cov)
     return v.finish("exploration", cov, [
         "in-process: a panic reaching the driver's catch_unwind is what would kill the binary; "
